@@ -79,7 +79,8 @@ def get_shape_from_array(value, nd):
     if hasattr(value, "shape"):
         return value.shape
     elif hasattr(value, "_shape"):
-        return value._shape
+        # (a view of a dynamic-shape array holds its shape as a list)
+        return tuple(int(ss) for ss in value._shape)
     if hasattr(value, "lower"):  # test for string
         return ()
     elif hasattr(value, "__len__"):
